@@ -99,6 +99,32 @@ def fingerprint(path):
     return hashlib.sha256("\x1f".join(toks).encode()).hexdigest()
 
 
+STATE_RE = re.compile(r"\bstatic\s+mut\b|\bunsafe\b|\bAtomic\w*|\b(?:Ref|Unsafe|Once|Sync)?Cell\b|\bOnceLock\b|\bLazyLock\b|\bLazy\b|"
+                      r"\bMutex\b|\bRwLock\b|\bthread_local\b|\blazy_static\b|\bOnce\b")
+
+
+def blank_strings(code):
+    return re.sub(r'"(?:\\.|[^"\\])*"', '""', code)
+
+
+def global_state():
+    """lines of non-test code that introduce state carried between calls (or `unsafe`, with which anything goes):
+    the model treats every function of the crate as a function of its arguments"""
+    hits = []
+    for base, _, names in os.walk(os.path.join(REPO, "src")):
+        for nme in sorted(names):
+            if not nme.endswith(".rs"):
+                continue
+            p = os.path.join(base, nme)
+            src = open(p, encoding="utf-8", errors="replace").read()
+            code = blank_strings(drop_test_modules(strip(src)))
+            for m in STATE_RE.finditer(code):
+                ln = code.count("\n", 0, m.start())
+                line = code.split("\n")[ln].strip()
+                hits.append(f"{os.path.relpath(p, REPO)}: {line[:160]}")
+    return sorted(set(hits))
+
+
 def current():
     res = {}
     for base, _, names in os.walk(os.path.join(REPO, "src")):
@@ -127,3 +153,4 @@ if __name__ == "__main__":
         print("pinned", len(current()), "files at", head)
     else:
         print(drift())
+        print(global_state())
